@@ -134,6 +134,11 @@ class LFPSDetector(Elaboratable):
         # sequences of two correct LFPS cycles in a row.
         last_iteration_matched = Signal()
 
+        # Track rising edges of our signaling continuously. (Creating the edge detector inside of an FSM state
+        # would only update its history while in that state; leaving it with a stale value that hides a burst
+        # that starts on the very cycle we return to that state.)
+        burst_started = rising_edge_detected(m, present, domain="ss")
+
         #
         # Detector state machine.
         #
@@ -145,7 +150,7 @@ class LFPSDetector(Elaboratable):
                 m.d.ss += last_iteration_matched.eq(0)
 
                 # If we've just seen the start of a burst, start measuring it.
-                with m.If(rising_edge_detected(m, present, domain="ss")):
+                with m.If(burst_started):
                     m.d.ss += count.eq(1),
                     m.next = "MEASURE_BURST"
 
